@@ -23,6 +23,8 @@ Decided (DESIGN.md §C12): the explicit integrator Phreeqc::rk_kinetics is a *co
   C12.step      step bookkeeping: the integrated time h_sum advances by h exactly once, only on the accepted branch
                 of the error test; a rejected step increments step_bad; the loop runs while h_sum < kin_time; the step is
                 clamped to the remaining time; rate_sim_time is set to start + kin_time after the loop
+  C12.cvodetime  the CVODE callbacks f and Jac derive rate_sim_time from their time argument; a restart moves the time origin by the time already
+                integrated; the restart checkpoint stores the accepted state zn[0] with the step time
   C12.ratefraction  every rate-evaluating solve of the integrators (rk_kinetics, CVODE right-hand side f, CVODE Jacobian Jac, base and
                 perturbed states) runs at REACTION fraction 0: the whole REACTION amount of the step is applied before integrating
 Not decided: step-size control constants, the CVODE path, non-negativity, agreement with closed-form solutions.
@@ -613,6 +615,7 @@ def run(P, R, tier):
     transfer_rule(P, R)
     cvode_restart_rule(P, R)
     ratefraction_rule(P, R)
+    cvodetime_rule(P, R)
     errmax_rule(P, R)
     clamp_rule(P, R)
     trialreset_rule(P, R)
@@ -894,6 +897,57 @@ def cvode_restart_rule(P, R):
         R.ok("C12.cvode", "remaining", "tout1 = tout - sum_t")
     else:
         R.violation("C12.cvode", "remaining", "the restart no longer integrates the remaining time tout - sum_t", line=times[0][1], **where)
+
+
+def cvodetime_rule(P, R):
+    """Rates may depend on time (TOTAL_TIME, SIM_TIME).  CVODE evaluates its right-hand side f(t, y) and the Jacobian at times inside a
+    step, so (a) both callbacks derive rate_sim_time from their own time argument (origin + t), not from a member that is only advanced
+    after a completed step; (b) a restarted integration (run_reactions re-creates the solver with t0 = 0) moves the origin by the time
+    already integrated (sum_t); (c) the checkpoint a restart resumes from pairs the step time tn with the accepted state of that time
+    (the Nordsieck vector zn[0]) - the work vector y holds the rejected corrector result after a failed attempt."""
+    RULE = "C12.cvodetime"
+    R.rule(RULE, "CVODE: f and Jac take the time from their argument; a restart moves the time origin by sum_t; the restart checkpoint stores zn[0] with tn", minimum=4)
+    for q in ("Phreeqc::f", "Phreeqc::Jac"):
+        fs = [g for g in P.fns_named(q) if g.get("body")]
+        if not fs:
+            R.anchor_missing(RULE, "%s not found" % q)
+            continue
+        f = fs[0]
+        tname = "t"
+        w = [x for x in T.walk(f["body"]) if x[0] == "Bin" and x[2] == "=" and T.strip_casts(x[3])[0] == "Member" and T.strip_casts(x[3])[2] == "Phreeqc::rate_sim_time"]
+        inst = "%s:time" % q.split("::")[-1]
+        if not w:
+            R.violation(RULE, inst, "%s no longer sets rate_sim_time: rates that depend on time see a stale time" % q, file=f["file"], line=f["line"], function=f["q"])
+        elif all(any(y[0] == "Ref" and y[2] == "param" and y[3] == tname for y in T.walk(x[4])) for x in w):
+            R.ok(RULE, inst, "rate_sim_time = %s" % T.text(w[0][4])[:50])
+        else:
+            R.violation(RULE, inst, "%s sets rate_sim_time to `%s`, which does not depend on the time argument of the callback: every evaluation inside an internal step uses the time of "
+                        "the previous step end, so cvode integrates a different function of time than the Runge-Kutta integrator" % (q, T.text(w[0][4])[:50]),
+                        file=f["file"], line=w[0][1], function=f["q"])
+    rr = P.one("Phreeqc::run_reactions")
+    org = [x for x in T.walk(rr["body"]) if x[0] == "Bin" and x[2] == "=" and T.strip_casts(x[3])[0] == "Member" and T.strip_casts(x[3])[2] == "Phreeqc::cvode_rate_sim_time_start"]
+    moved = [x for x in org if any(y[0] == "Ref" and y[3] == "sum_t" for y in T.walk(x[4]))]
+    loops = [lp for lp in T.walk(rr["body"]) if lp[0] == "While" and any(y[0] == "Ref" and y[3] == "sum_t" for y in T.walk(lp[3]))]
+    if moved and loops and any(any(z is m for z in T.walk(loops[0][3])) for m in moved):
+        R.ok(RULE, "restart:origin", "cvode_rate_sim_time_start = %s inside the restart loop" % T.text(moved[0][4])[:40])
+    else:
+        R.violation(RULE, "restart:origin", "the restart loop of run_reactions re-creates the solver with t0 = 0 but does not move cvode_rate_sim_time_start by the time already "
+                    "integrated (sum_t): after a restart time-dependent rates are evaluated sum_t too early", file=rr["file"], line=(loops[0][1] if loops else rr["line"]), function=rr["q"])
+    cs = [g for g in P.functions.values() if g.get("body") and g["q"].split("::")[-1] == "CVStep"]
+    if not cs:
+        R.anchor_missing(RULE, "CVStep not found")
+        return
+    cp = [c for c in T.calls(cs[0]["body"]) if T.callee_name(c) == "N_VScale" and len(c[4]) == 3 and any(y[0] == "Member" and y[2].endswith("cvode_last_good_y") for y in T.walk(c[4][2]))]
+    if not cp:
+        R.anchor_missing(RULE, "CVStep: checkpoint copy into cvode_last_good_y not found")
+        return
+    src = T.strip_casts(cp[0][4][1])
+    if src[0] == "Index" and T.strip_casts(src[2])[0] == "Member" and T.strip_casts(src[2])[2].endswith("cv_zn") and T.lit_value(src[3]) == 0:
+        R.ok(RULE, "checkpoint:state", "cvode_last_good_y = zn[0] (the accepted state of tn)")
+    else:
+        R.violation(RULE, "checkpoint:state", "the restart checkpoint stores `%s` with the step time tn; after a rejected attempt that work vector holds the rejected corrector "
+                    "result, not the state of tn: a restart resumes from a state that does not belong to the recorded time" % T.text(src)[:30],
+                    file=cs[0]["file"], line=cp[0][1], function=cs[0]["q"])
 
 
 def ratefraction_rule(P, R):
